@@ -12,6 +12,7 @@ pub mod c12b;
 pub mod c15;
 pub mod c15b;
 pub mod c17b;
+pub mod spb;
 pub mod c20;
 
 use pzv_common::driver::{Ctx, install_panic_hook, read_replay};
